@@ -1009,3 +1009,50 @@ def limit_cases(lm):
     c2, b2 = limit_kwargs_cases(lm)
     cnt, bad = cnt + c2, bad + b2
     return cnt, bad
+
+
+# ------------------------------------------------------------------------------------------------------------------
+# documented default arguments of the public entry points the properties speak about (transcribed once from the docstrings of
+# the pinned source; "documented defaults" are part of several property statements).  module attribute path -> {argument: default}
+DOCUMENTED_DEFAULTS = {
+    'core.Derivative.__init__': dict(step=None, method='central', order=2, n=1),
+    'core.Hessdiag.__init__': dict(step=None, method='central', order=2),
+    'core.Hessian.__init__': dict(step=None, method='central', order=None),
+    'step_generators.MinStepGenerator.__init__': dict(base_step=None, step_ratio=None, num_steps=None, step_nom=None, offset=0, num_extrap=0,
+                                                     use_exact_steps=True, check_num_steps=True, scale=None),
+    'step_generators.MaxStepGenerator.__init__': dict(base_step=2.0, step_ratio=None, num_steps=15, step_nom=None, offset=0, num_extrap=9,
+                                                     use_exact_steps=False, check_num_steps=True, scale=500),
+    'limits.CStepGenerator.__init__': dict(base_step=None, step_ratio=4.0, num_steps=None, step_nom=None, offset=0, scale=1.2),
+    'limits.Limit.__init__': dict(step=None, method='above', order=4, full_output=False),
+    'limits.Residue.__init__': dict(step=None, method='above', order=None, pole_order=1, full_output=False),
+    'fornberg.fd_weights': dict(x0=0, n=1),
+    'fornberg.fd_weights_all': dict(x0=0, n=1),
+    'fornberg.fd_derivative': dict(n=1, m=2),
+    'fornberg.taylor': dict(z0=0, n=1, r=0.0059, num_extrap=3, step_ratio=1.6),
+    'fornberg.derivative': dict(n=1),
+    'extrapolation.Richardson.__init__': dict(step_ratio=2.0, step=1, order=1, num_terms=2),
+    'extrapolation.Dea.__init__': dict(limexp=50),
+    'extrapolation.dea3': dict(symmetric=False),
+    'nd_scipy._Common.__init__': dict(step=None, method='central', order=2),
+}
+
+
+def default_argument_mismatches(keys=None):
+    """[(entry point, argument, default found, documented default)] for the real signatures (needs numdifftools importable)"""
+    import importlib
+    import inspect
+    bad = []
+    for key in (keys or sorted(DOCUMENTED_DEFAULTS)):
+        want = DOCUMENTED_DEFAULTS[key]
+        modname, rest = key.split('.', 1)
+        obj = importlib.import_module('numdifftools.' + modname)
+        for part in rest.split('.'):
+            obj = getattr(obj, part)
+        sig = inspect.signature(obj)
+        for arg, dflt in want.items():
+            prm = sig.parameters.get(arg)
+            got = prm.default if prm is not None else '<no such parameter>'
+            same = (got is dflt) if dflt is None or isinstance(dflt, bool) else (type(got) in (int, float, str) and got == dflt and isinstance(got, bool) == isinstance(dflt, bool))
+            if not same:
+                bad.append((key, arg, repr(got), repr(dflt)))
+    return bad
